@@ -770,8 +770,11 @@ def _refine(ctx, base, x, io_bad, msg):
     if _plain(alone[0]) == here:
         return msg
     ctx.tally("pristine-process probe: failing call answers differently in a fresh process (state-dependent)")
-    if _PROBE["explained"] >= 4:
-        _PROBE["explained"] += 1
+    if _PROBE["explained"] >= 2:
+        return None              # two reproducing histories are recorded already: the same cause
+    _PROBE["refined"] = _PROBE.get("refined", 0) + 1
+    if _PROBE["refined"] > 8:
+        _DEFERRED.append((base, x, io_bad, msg + " (state-dependent: a fresh process answers this call differently)"))
         return None
 
     def attempt(prefix):
@@ -787,7 +790,8 @@ def _refine(ctx, base, x, io_bad, msg):
         name, hist = _hist_input(base, prefix, x)
         ctx.fail("property", name, inp=hist,
                  impl={"steps": [{kk: v for kk, v in o.items() if kk != "lib"} for o in outs], "notes": []},
-                 detail=f"history step {len(prefix)} ({' -> '.join(['fresh'] * (len(prefix) + 1))}): " + m2 +
+                 detail=f"history step {len(prefix)} ({' -> '.join(['fresh'] * (len(prefix) + 1))}) gives an answer that "
+                        "violates the property: " + m2 +
                         f" [alone, in a fresh process, the same call returns {jkey(_plain(alone[0]))[:200]}]")
         return "done"
     ring = list(_RINGS[base])
@@ -799,7 +803,26 @@ def _refine(ctx, base, x, io_bad, msg):
             return msg
     if len(ring) > 1 and attempt(ring) == "done":
         return None
-    return msg + " (state-dependent: a fresh process answers this call differently; no short history reproduces it)"
+    # nothing short reproduces it (e.g. it hinges on object identities): reported at the end of the run only if no
+    # violation with a replay that stands on its own was found
+    _DEFERRED.append((base, x, io_bad, msg + " (state-dependent: a fresh process answers this call differently; no short "
+                                             "history reproduces it, the replay may need the calls made before it)"))
+    return None
+
+
+_DEFERRED = []
+
+
+def _flush_deferred(ctx):
+    if not _DEFERRED:
+        return
+    if any(f.kind == "property" for f in ctx.failures):
+        ctx.note(f"{len(_DEFERRED)} further state-dependent failures of single calls (not reproducible on their own) are "
+                 "explained by the recorded violations")
+    else:
+        for base, x, io, msg in _DEFERRED[:5]:
+            ctx.fail("property", base, inp=x, impl=io, detail=msg)
+    del _DEFERRED[:]
 
 
 def _judge_observed(ctx, base, x, obs):
@@ -860,11 +883,25 @@ def _holds_matrix_probed(ctx, inp, io):
     return msg
 
 
+def _sig(msg):
+    """the report keeps one replay per (operation, first 60 characters of the message): keep the varying part of a
+    history's message behind a fixed clause so that different operations / reuse trails get the replay slots"""
+    import re
+    return re.sub(r"^((?:history step|call) \d+ (?:\([^)]*\)|of \d+ consumed in turn)): ",
+                  lambda m_: m_.group(1) + " gives an answer that violates the property: ", msg) if msg else msg
+
+
 def _holds_history(raw, opname):
     def holds(ctx, h, io):
+        return _sig(inner(ctx, h, io))
+
+    def inner(ctx, h, io):
         msg = raw(ctx, h, io)
         if msg is None or _CTX is None:
             return msg
+        _PROBE["confirmed"] = _PROBE.get("confirmed", 0) + 1
+        if _PROBE["confirmed"] > 6:
+            return msg                      # enough failing histories were re-run in a fresh process
         F = _fresh()
         again = F.run(h, op=opname)
         if again is None:
@@ -1807,6 +1844,8 @@ def run(ctx):
     global _CTX
     _CTX = ctx
     _CACHE.clear()
+    del _DEFERRED[:]
+    _PROBE.update(n=0, explained=0, refined=0, confirmed=0)
     nmax = ctx.budget(5, 7)
     stage = _timed(ctx)
     stage("certificate generator self-test", _cert_selftest, ctx)
@@ -1831,6 +1870,7 @@ def run(ctx):
               lambda: ctx.run_cases(OPS["match"], _grid_cases(ctx.rng, ctx.budget(60, 400), ctx.budget(10, 16), nmin=4)))
     stage("free-mode lists", lambda: ctx.run_cases(OPS["match"], _free_cases(ctx.rng, ctx.budget(150, 2000), min(nmax, 5))))
     stage("discharge", ctx.discharge, ["SoundeventModel.Matching", "SoundeventModel.MatchCall"])
+    _flush_deferred(ctx)
     _close_fresh()
 
 
@@ -1845,3 +1885,6 @@ def search(ctx, failures):
     ctx.stage("search: short lists", lambda: ctx.run_cases(OPS["match"], _exhaustive_lists(_POOL, 2)))
     ctx.stage("search: grid lists", lambda: ctx.run_cases(OPS["match"], _grid_cases(ctx.rng, 2000, 5)))
     ctx.stage("search: long grid lists", lambda: ctx.run_cases(OPS["match"], _grid_cases(ctx.rng, 150, 12, nmin=3)))
+    ctx.stage("search: histories", _stage_histories, ctx)
+    _flush_deferred(ctx)
+    _close_fresh()
